@@ -684,6 +684,16 @@ func (g *Gen) gotoShape(d int) []L.Stmt {
 		body := g.stmts(1+g.n(2, "gback"), d-1)
 		g.release(m)
 		g.class("goto_backward")
+		if g.n(3, "gotocapture") == 0 {
+			// a local declared after the label (same block) and captured: every pass makes a new variable
+			g.class("goto_backward_captured_local")
+			gf, gv := g.fresh("gf"), g.fresh("gv")
+			return []L.Stmt{&L.DoStmt{Body: blk(decl, local1(gf, tbl()), &L.LabelStmt{Name: lbl}, local1(gv, bin("*", name(fn), num(10))),
+				assign1(idx(name(gf), bin("+", un("#", name(gf)), num(1))), fn_(nil, blk(assign1(name(gv), bin("+", name(gv), num(1))), ret(name(gv))))),
+				&L.DoStmt{Body: blk(body...)}, assign1(name(fn), bin("-", name(fn), num(1))),
+				ifs(bin(">", name(fn), num(0)), blk(&L.GotoStmt{Label: lbl}), nil),
+				&L.NumForStmt{Var: "gi", Start: num(1), End: un("#", name(gf)), Body: blk(emit(name("gi"), call(idx(name(gf), name("gi"))), call(idx(name(gf), name("gi")))))})}}
+		}
 		out := []L.Stmt{decl, &L.LabelStmt{Name: lbl}, &L.DoStmt{Body: blk(body...)}, assign1(name(fn), bin("-", name(fn), num(1))),
 			ifs(bin(">", name(fn), num(0)), blk(&L.GotoStmt{Label: lbl}), nil)}
 		return out
@@ -728,3 +738,6 @@ func (g *Gen) tableOps(d int) []L.Stmt {
 		return []L.Stmt{emit(call(field(name("table"), "remove"), t)), emit(un("#", g.ref(v)))}
 	}
 }
+
+// fn_ builds a parameterless function (for places where a local named fn shadows the constructor)
+func fn_(params []string, b *L.Block) *L.FuncExpr { return fn(params, false, b) }
